@@ -2,12 +2,20 @@
 
 Two ts-server instances built from the current tree (1 and 3 partitions per node).  Bounded exhaustive
 enumeration (odometer, no randomness) of
-  data sets   (lib/c08_model.py: 3 series x 4 timestamps x {absent, f+g, f only, g only}, <= 6 points)
+  data sets   (lib/c08_model.py)
+              f/g family:   3 series x 4 timestamps x {absent, f+g, f only, g only}, <= 6 points, f float, g integer or string
+              typed family: 3 series x 10 timestamps, fields f float, s string (quotes, commas, non-ASCII, empty), i integer
+                            (values whose sums pass 2^53), b boolean, nulls in every column; one series has 9-10 rows
   layouts     memory | flushed | flushed + late (out-of-order / row-completing) points | late points flushed too |
               flushed + newer rows in memory | two ordered files
-  statements  SELECT (f | f,g | agg(f)) FROM m [WHERE ..] [GROUP BY tag | time(w) [fill(..)]] [ORDER BY time DESC] [LIMIT n OFFSET k]
+  statements  f/g:   SELECT (f | f,g | agg(f)) FROM m [WHERE ..] [GROUP BY tag | time(w) [fill(..)]] [ORDER BY time DESC] [LIMIT n OFFSET k]
+              typed: SELECT (s | f,s | s,i,b | * | f,host | b | ..) and count/first/last(s|b), count/sum/mean/min/max/first/last(i),
+                     several calls in one statement, WHERE on s (=, !=), i (>, <=), b (=, !=), tags and time, GROUP BY tag / time(w)
+                     with fill(none|null|previous) (fill(0) on integer results), ORDER BY time DESC, LIMIT/OFFSET on ungrouped selections
   configs     chunk size n in {1, 2, default} (inner_chunk_size=n, and chunk_size=n when chunked) x chunked {off, on}
               x chunk_reader_parallel {1, default} x server {1 partition, 3 partitions}
+              With n = 1 or 2 the long series reaches every operator in 10 / 5 batches, more than any fixed ring of chunks or
+              records on the query path holds (notes/C08.md lists them), so every such ring wraps around.
 Oracle: every answer must be one the reference evaluator (documented InfluxQL semantics evaluated directly over the
 logical contents) allows; a DESC answer is compared reversed; limit/offset on grouped queries is only compared across
 configurations.  Because every configuration, layout and server is compared with the same expected answer, configuration /
@@ -22,16 +30,20 @@ CLAIMED = True
 MANIFEST = dict(
     level=c08_driver.LEVEL,
     engine="enumx + black-box driver",
-    technique="bounded exhaustive enumeration of data sets x storage layouts x statements of a finite InfluxQL grammar x execution "
-              "configurations on two real ts-server instances (1 and 3 partitions), differential oracle against a direct evaluator of "
-              "the documented semantics plus metamorphic relations (configuration/layout/partition invariance, DESC = reverse ASC)",
-    text="Every statement of a finite SELECT grammar is run on every enumerated data set in every layout (memory, flushed, flushed+late, "
-         "late flushed, flushed+newer memory, two ordered files) under every combination of chunk size, response chunking, reader parallelism and partition count over HTTP; each "
-         "answer must be one the reference evaluator allows.",
+    technique="bounded exhaustive enumeration of data sets (float/integer/string/boolean fields, nulls, one series longer than every "
+              "chunk/record ring) x storage layouts x statements of a finite InfluxQL grammar x execution configurations on two real "
+              "ts-server instances (1 and 3 partitions), differential oracle against a direct evaluator of the documented semantics "
+              "plus metamorphic relations (configuration/layout/partition invariance, DESC = reverse ASC)",
+    text="Every statement of a finite SELECT grammar (plain selections of float, integer, string and boolean fields and of tags, "
+         "count/sum/mean/min/max/first/last where the language defines them for the type, filters on every field type, GROUP BY tag and "
+         "time with the fill modes, DESC, LIMIT/OFFSET) is run on every enumerated data set in every layout (memory, flushed, "
+         "flushed+late, late flushed, flushed+newer memory, two ordered files) under every combination of chunk size (1, 2, default), "
+         "response chunking, reader parallelism and partition count over HTTP; each answer must be one the reference evaluator allows, "
+         "with strings, booleans and integers compared exactly.",
     note="Trusts: the reference evaluator's reading of InfluxQL (leniency list in notes/C08.md); the HTTP JSON rendering; only the stated "
-         "core of the language (no sub-queries, joins, regex sources, SLIMIT); <= 6 points per data set.",
+         "core of the language (no sub-queries, joins, regex sources, SLIMIT); <= 6 points per f/g data set, <= 16 per typed data set "
+         "(a series of 10 rows: rings of up to 8 chunks/records wrap, larger ones and the default batch size of 1024 rows do not).",
 )
-
 
 
 def run(tier, replay):
